@@ -194,6 +194,22 @@ def generate(rng, n, tier="quick"):
         case = session({}, [], {"api": "render_template", "src": src}, {"v": vv})
         case["id"] = "%s-thm%04d" % (ID, k)
         out.append((case, {"mode": "thm", "oracle": ["must", exp], "shape": [vn, has_else, L, R]}))
+    # the family of the Lean theorem C06.if_keeps_the_current_context:  L ++ {{#if v}}{{x}}{{/if}} ++ R  – the path `x` inside the
+    # block is the field `x` of the scope the block stands in, whatever `v` holds (objects with an `x` of their own included);
+    # closed form  L ++ (escape(text of data.x) if data.v is truthy) ++ R, for the three escape functions
+    from .C03 import thm_left as _tl, thm_right as _tr
+    for k in range(60 if tier != "thorough" else 1500):
+        r = rng.fork("thmctx%d" % k)
+        L, R = _tl(r), _tr(r)
+        vv = r.pick([True, False, 0, 1, "", "s", [], [0], None, {}, {"x": "INNER"}, {"x": 7, "y": 1}, [{"x": "E"}], "x", -1, 2.5])
+        xv, shown = r.pick([("X", "X"), ("<b>&", "<b>&"), (5, "5"), (True, "true"), ("", ""), (None, ""), ("a\nb", "a\nb"), ("\u00e9\"", "\u00e9\"")])
+        esc = r.pick(["none", "html", "mark"])
+        from .common import escape_of
+        t = ref.truthy(vv, False)
+        exp = L + (escape_of(esc)(shown) if t else "") + R
+        case = session({"escape": esc}, [], {"api": "render_template", "src": L + "{{#if v}}{{x}}{{/if}}" + R}, {"v": vv, "x": xv})
+        case["id"] = "%s-thmctx%04d" % (ID, k)
+        out.append((case, {"mode": "thm", "oracle": ["must", exp], "shape": ["ctx", str(type(vv)), L, R]}))
     # a conditional in the BODY OF A PARTIAL BLOCK: a decorator (an inline partial definition) in a branch the condition does not select
     # must not take effect – the partial is called with the definitions made outside the conditional; every block kind, plain
     # else and else-chains, the definition in the unselected first / middle / last link
